@@ -190,6 +190,17 @@ def classify(r):
         kind, top, site = parse_sanitizer(r.get("stderr", ""))
         if kind:
             det = (site + " " if site else "") + "in " + " < ".join(top)
+            # for a use after free also say who freed and who allocated the block (first frames in the tree under test);
+            # the signature (which groups runs) stays keyed on the faulting access only
+            se = r.get("stderr", "")
+            for label, pat in (("freed in", r"freed by thread[^\n]*\n((?:\s+#\d+ [^\n]*\n)+)"),
+                               ("allocated in", r"previously allocated by thread[^\n]*\n((?:\s+#\d+ [^\n]*\n)+)")):
+                mm = re.search(pat, se)
+                if mm:
+                    fr = [f for f, pth in re.findall(r"#\d+ 0x[0-9a-f]+ in (\S+) (/\S+?):\d+", mm.group(1))
+                          if pth.startswith(REPO + "/") and f not in ("nni_free", "nni_alloc", "nni_zalloc")]
+                    if fr:
+                        det += f"; {label} " + " < ".join(fr[:4])
             return ("violation", kind, kind + "|" + norm_detail(site) + "|" + "<".join(top[:2]), det)
         cls = "abort" if r.get("signal") else "exit%d" % r.get("exit", -1)
         tail = (r.get("stderr", "") or "")[-300:]
